@@ -93,7 +93,7 @@ def cmpDelta (i : Nat) (m : Delta) (x : ImplDelta) : Option String :=
     match m.sfl, x.sfl with
     | none, none => none
     | some a, some b =>
-      if !close a.loss b.loss then some s!"row {i}: sfl amount model={ratToString a.loss} impl={ratToString b.loss}"
+      if !closeAt (rabs (m.pre.acb.getD 0)) a.loss b.loss then some s!"row {i}: sfl amount model={ratToString a.loss} impl={ratToString b.loss}"
       else if !close (a.num / a.den) (b.num / b.den) then some s!"row {i}: sfl ratio model={ratToString a.num}/{ratToString a.den} impl={ratToString b.num}/{ratToString b.den}"
       else if a.over ≠ b.over && rabs a.overMargin > 1 / pow10 9 then some s!"row {i}: over-applied flag model={a.over} impl={b.over}"
       else none
